@@ -1,3 +1,4 @@
+import WebpVerif.Model.Vp8Coef
 import WebpVerif.Lemmas.Arith
 import WebpVerif.Lemmas.ArithRfc
 import WebpVerif.Spec.BoolDec
@@ -67,6 +68,19 @@ theorem read_tree_path_independent (d : Dec) (tree : Array Node)
   rw [hfirst]; simp only [hfast]
   by_cases hc : r.2.chunkIndex ≤ d.chunks.size
   · simp only [hc, if_true]; rw [fast_agrees_tree tree hall (tree.size + 1) d 0 first hfirst h.1 r hfast hc]; rfl
+  · simp only [hc, if_false]
+
+/-- `read_with_tree_with_first_node` (the coefficient-token reads of vp8.rs enter the token tree at
+    node 1 after a zero token): the same path independence from EVERY start node -/
+theorem read_tree_from_node_path_independent (d : Dec) (tree : Array Node)
+    (hall : ∀ (k : Nat) (nd : Node), tree[k]? = some nd → nd.prob < 256) (h : WF d)
+    (start : Nat) (first : Node) (hfirst : tree[start]? = some first) (r : Nat × State)
+    (hfast : fastReadTree d.chunks tree (tree.size + 1) d.state first = some r) :
+    Vp8Coef.readTreeFrom d tree start = coldReadTree tree (tree.size + 1) d start := by
+  unfold Vp8Coef.readTreeFrom commitIfValid
+  rw [hfirst]; simp only [hfast]
+  by_cases hc : r.2.chunkIndex ≤ d.chunks.size
+  · simp only [hc, if_true]; rw [fast_agrees_tree tree hall (tree.size + 1) d start first hfirst h.1 r hfast hc]; rfl
   · simp only [hc, if_false]
 
 /-- every read keeps the decoder well-formed (⇒ shift amounts in 0..=31, asserts hold) -/
